@@ -780,7 +780,7 @@ ASSUMPTIONS = ['lower is idempotent: lower (lower k) = lower k (hypothesis of th
                'boolean key equality decides equality (proved for the extracted instance str_eqb)',
                'correspondence domain: keys are ASCII strings plus caseless non-ASCII symbols; non-ASCII letters are outside the compared domain (the theorems are about an abstract key type and do not depend on it)',
                'set iteration order (hash order) is unobservable: iterations of the set are compared sorted, and MutableSet.pop is modelled as "removes some element" (the element the implementation popped is passed to the model, which checks it is a member)']
-PARTIAL = ['default_run_refines_partial: the defaulting variant is proved to refine the reference map only on histories without lower() and without get-with-default / setdefault / pop-with-default of a then-absent key; the full statement is refuted (default_lower_refuted, default_pop_default_refuted = known findings C13-F1, C13-F2); what get/setdefault do there is stated exactly by default_get_setdefault_no_insert',
+PARTIAL = ['default_run_refines_partial: the defaulting variant is proved to refine the reference map only on histories without lower() and without get-with-default / setdefault / pop-with-default of a then-absent key; the full statement is refuted (default_lower_refuted, default_pop_default_refuted = known findings C13-F1, C13-F2); what the class does there is stated exactly by default_run_refines_quirks (every history without lower()) and default_get_setdefault_no_insert',
            'init_refines_partial: the constructor is proved to be the sequence of insertions only for argument lists without an exactly repeated key (run_refines itself starts from the dict-de-duplicated list and is unconditional); refuted in general by init_refuted = known finding C13-F3',
            'repr is modelled, proved and compared as the data it prints, not as text; set iteration order, the element returned by set.pop() and the item returned by popitem() are not fixed by the oracle',
            'not modelled: __eq__, update(**kwargs), &=, ^= and the binary set operators (outside the operation list of the property)']
